@@ -4,7 +4,9 @@ Models: the read-ahead invariants of every buffering stage - ShuffleBuffer.tla R
 RoundRobin.tla OpenBounded (<= B inner iterators open), LazyPool.tla InFlightBound / SourceReadAhead (<= prefill+1),
 BatchMap.tla ReadAhead (<= P shards decoded ahead), ParallelMap.tla OneOutstanding / ReadAhead (<= T) - are state
 invariants that do not mention the source length; TLC checks them for sources of different lengths and for the
-cyclic (infinite) source, where Productive says a finite take never blocks. Binding: pull/yield counts of the real
+cyclic (infinite) source, where Productive says a finite take never blocks; and the TLA+ proof system checks
+inductive-invariant proofs (spec/proofs/*_Proofs.tla) that the five read-ahead invariants hold for EVERY source length,
+buffer size, thread count, failure set and drop position. Binding: pull/yield counts of the real
 generators and of the real pool are measured for sources of N, 2N, 4N elements (same maximum, below the model's
 bound); end to end, the shard files opened (inotify: any thread, TensorFlow, Rust) while taking k examples from
 datasets of S, 2S, 4S shards - finite and repeating - stay below a bound that depends only on the configured
@@ -134,6 +136,17 @@ def run(ctx: Ctx) -> None:
             raise MachineryError(f"ParallelMap.tla violates {res.violated}")
     ctx.log(f"TLC: read-ahead invariants of all stages for sources of several lengths: {ctx.cov['states']} distinct "
             f"states, all hold")
+    # ---------------------------------------------------------------- 1b. the same invariants for EVERY value of the
+    # constants: inductive-invariant proofs checked by the TLA+ proof system (the proof modules EXTEND the modules
+    # TLC has just checked and that the replays below bind to the code)
+    import concurrent.futures as cf
+    from .. import tlaps
+    proofs = [("ShuffleBuffer_Proofs", ["ReadAheadForAllSources"]), ("RoundRobin_Proofs", ["OpenBoundedForAllInputs"]),
+              ("BatchMap_Proofs", ["ReadAheadForAllInputs"]), ("ParallelMap_Proofs", ["ReadAheadForAllInputs"]),
+              ("LazyPool_Proofs", ["InFlightBoundForAllInputs"])]
+    with cf.ThreadPoolExecutor(max_workers=5) as ex:
+        for f in [ex.submit(tlaps.prove, ctx, m, th) for m, th in proofs]:
+            f.result()
 
     # ---------------------------------------------------------------- 2. stage level measurements on the real code
     import sedpack.io.itertools.itertools as M
